@@ -130,7 +130,30 @@ class SubParsers:
         return p
 
 
-def fold_main(repo, argv, profile_result=None):
+class _Ctx:
+    _fold_ok = True
+    _fold_enter = True
+
+    def __init__(self, value):
+        self.value = value
+
+    def __enter__(self):
+        return self.value
+
+    def __exit__(self, *a):
+        return False
+
+
+def _splitext(q):
+    q = str(q)
+    base = q.rsplit("/", 1)[-1]
+    if "." in base.lstrip("."):
+        i = q.rindex(".")
+        return q[:i], q[i:]
+    return q, ""
+
+
+def fold_main(repo, argv, profile_result=None, genotype_raises=None):
     """-> (kind, value, calls): calls = [('genotype', kwargs) | ('profile', args, kwargs) | ('print', text)]"""
     f = repo.func("__main__::main")
     calls = []
@@ -151,8 +174,17 @@ def fold_main(repo, argv, profile_result=None):
         "logbook.FileHandler": lambda *a, **k: Obj(push_application=lambda: None, formatter=None),
         "os.path.basename": lambda q: str(q).rsplit("/", 1)[-1], "os.path.exists": lambda q: True, "open": lambda *a, **k: Obj(close=lambda: None, name=a[0]),
         "script_path": lambda q: q, "exit": lambda code=0: (_ for _ in ()).throw(SystemExit(code)),
+        "tempfile.TemporaryDirectory": lambda *a, **k: _Ctx("/scratch/T"), "os.path.splitext": _splitext,
+        "os.system": lambda cmd: calls.append(("system", cmd)) or 0,
     }
-    env = {"logbook": Obj(base=Obj(_reverse_level_names={"INFO": 2, "DEBUG": 1, "TRACE": 0, "WARNING": 3}),
+    funcs["open"] = lambda name, mode="r", *a, **k: (calls.append(("open", name, mode)), _Ctx(Obj(close=lambda: None, name=name, write=lambda t: None)))[1]
+    funcs["yaml.dump"] = lambda d, stream=None, *a, **k: (calls.append(("yaml", getattr(stream, "name", None))), f"YAML{d!r}")[1]
+    if genotype_raises:
+        def genotype(*a, **k):  # noqa: F811
+            calls.append(("genotype", a, k))
+            raise Raised(genotype_raises)
+        funcs["genotype"] = genotype
+    env = {"yaml": Obj(Dumper=Obj(ignore_aliases=None)), "common": Obj(json={}), "common.json": {}, "logbook": Obj(base=Obj(_reverse_level_names={"INFO": 2, "DEBUG": 1, "TRACE": 0, "WARNING": 3}),
                           more=Obj(ColorizedStderrHandler=lambda **k: Obj(push_application=lambda: None))),
            "sys.stdout": Obj(name="<stdout>"), "sys": Obj(stdout=Obj(name="<stdout>"))}
     fn = Lifted(f, funcs=funcs, env=env)
